@@ -36,7 +36,7 @@ CHECKS['C06'] = dict(
     engine='E1-enum', category='exploration', design_ref='DESIGN.md 5/C06',
     technique='exhaustive enumeration of (prefix, message) pairs, message concatenations and real-time insertions into sysex, executed on the real parser',
     text='Every prefix string of length <= 4 (5 thorough) over the 15-symbol byte-class alphabet and every proper prefix of every sample message, combined with 29 sample messages covering all 18 types; every concatenation of up to 3 messages; every multiset of up to 3 insertion positions strictly inside a sysex encoding x all 8 real-time byte values. The oracle is the statement itself.',
-    note='Messages limited to 29 representatives (one per type/length class/extreme); prefixes to the class alphabet.')
+    note='Prefixes limited to the class alphabet; with a non-empty enumerated prefix the message M ranges over 29 representatives (one per type/length class/extreme), while every one of the 1.33M valid non-sysex messages is parsed alone, after a message cut short and inside an open sysex. A thin layer of fixed long cases (sysex payloads around 2**k up to 2**17, long interrupted-sysex prefixes) is listed separately in the evidence rule.')
 
 CHECKS['C03'] = dict(
     engine='E2-bfs', category='model_checking', design_ref='DESIGN.md 5/C03',
@@ -48,12 +48,12 @@ CHECKS['C12'] = dict(
     engine='E1-enum', category='exploration', design_ref='DESIGN.md 5/C12',
     technique='exhaustive enumeration of track lists over an event alphabet, each merged by the real merge_tracks and compared with an independent absolute-time oracle',
     text='Every list of 1-3 tracks up to the stated lengths over {note, set_tempo, unknown meta, end_of_track} x delta {0,1,2} (end_of_track missing, repeated, mid-track; empty tracks; no tracks) is merged with both skip_checks values and through MidiFile.merged_track; an independent oracle recomputes absolute ticks, the (tick, track, index) order, the single final end_of_track and the total duration, and the inputs are compared with a snapshot.',
-    note='Deltas limited to {0,1,2}; track lengths bounded (quick 4/2/1, thorough 5/3/2 for 1/2/3 tracks).')
+    note='Deltas limited to {0,1,2} and track lengths bounded (quick 4/2/1, thorough 5/3/2 for 1/2/3 tracks) in the exhaustive part; on top of it fixed long families (1..33 tracks x 5..1000 events x 9 delta patterns x 4 event-kind patterns), rebuilt/frozen/shared-object variants and generator/tuple/list argument forms, listed in the evidence rule.')
 CHECKS['C19'] = dict(
     engine='E1-enum', category='exploration', design_ref='DESIGN.md 5/C19',
     technique='exhaustive enumeration of message lists, both file formats and whitespace layouts through real files on tmpfs',
     text='Every message list up to length 4 (5 thorough) over 8 representative messages is written and read back in both formats; every assignment of 8 whitespace separators to the gaps of small plain-text files is read; malformed hex must raise ValueError.',
-    note='Payload contents limited to representatives (lengths 0,1,3,300,5000).')
+    note='Payload contents limited to representatives (lengths 0,1,3,300,5000) in the exhaustive part; plus wrapped hex dumps with repeated content, lists of up to 1000 messages, binary sizes around 4096/8192/65536 bytes, every latin1 whitespace separator, and the raw file contents compared with the SYX format.')
 
 CHECKS['C09'] = dict(
     engine='E1-enum', category='exploration', design_ref='DESIGN.md 5/C09',
